@@ -35,7 +35,7 @@ def main():
 `/verif/seeded/<id>/` holds **%d changes that break a property** (`M-*`), written by independent sub-agents over ten
 rounds (each given only one property's text and its own scratch worktree of /repo, nothing from /verif; from round 2 on
 additionally one sentence saying where to look or what had already been done, so that it would do something different),
-and **%d behaviour-preserving refactors** (`E-*`, six rounds). Each `M-*` was **confirmed by me** with
+and **%d behaviour-preserving refactors** (`E-*`, seven rounds). Each `M-*` was **confirmed by me** with
 `tools/confirm_mutant.sh` in a scratch worktree: the patch applies, the whole pinned suite is rebuilt (`ninja -k 0`, no
 failing target other than the two that never build here) and passes, the demonstration exits 0 without and non-zero with
 the change (`seeded/<id>/confirm.txt`, `meta.json`). None is ever committed to /repo; `tools/seeded.py` applies each to a
@@ -56,7 +56,7 @@ D20, D22, D23) and two engine bugs of mine (section 6).
 %s
 
 **Behaviour-preserving changes.** To test the other direction ("never raise an alarm on code where the property
-holds") sub-agents were asked, in six rounds, for a realistic refactor of the code a property is anchored in that keeps
+holds") sub-agents were asked, in seven rounds, for a realistic refactor of the code a property is anchored in that keeps
 behaviour identical for every instantiation and input (if/else for conditional expressions, hoisted sub-expressions,
 inlined or extracted helpers, `if constexpr` for tag-dispatch structs, named locals, De Morgan, loops rewritten, aliases
 …), each with its own differential argument (`seeded/E-*/notes.md`). They are part of `tools/seeded.py`'s run; the
